@@ -5,9 +5,9 @@ from .. import cppfull, textjudge
 def run(ctx):
     textjudge.run_text(ctx)
     rule = ctx.cov['rule']
-    cppfull.run_cpp(ctx, ['C18'], states=list(textjudge.text_states(ctx.tier)), vmode='text')
+    cppfull.run_cpp(ctx, ['C18'], states=list(textjudge.text_states(ctx.tier)), vmode='text', ops=('build',))
     # the general universe as well: order effects between arbitrary members
-    cppfull.run_cpp(ctx, ['C18'], vcap=6 if ctx.tier == 'quick' else 24)
+    cppfull.run_cpp(ctx, ['C18'], vcap=6 if ctx.tier == 'quick' else 24, ops=('build',))
     ctx.assumptions += ['floating-point members are excluded, bytes values avoid quote characters, as the property states']
 
 
